@@ -399,7 +399,7 @@ open Emboss.ViewRef
 Full statement (DESIGN §7, `C01_G_refines_R`): for every accepted module, structure, parameters
 and buffer, every observation of `G` equals what the reference semantics R defines.  R is a Lean
 object: `RFact m w`, the least set of facts about a view closed under the documented rules (no
-fuel, no storage model).  Proved for the fragment `refModule` (round 3; round 2 had flat byte
+fuel, no storage model).  Proved for the fragment `reachOK` (Model/ViewFrag.lean; round 3; round 2 had flat byte
 structures only): byte structures **and `bits` containers with sub-byte fields** (`Spec.bits o w x`
 of the container's number, the spec C02 is proved against), **nested at any depth** (a field of
 structure type at a dynamic offset with a dynamic size and run-time arguments: the facts of the
@@ -415,38 +415,41 @@ a byte window for a `struct`, a number for a `bits`), the view over a message bu
 
 /-- **G refines R** (soundness): whatever the generated view reports as known — a readable
 field with its value, a presence flag, at any path into nested structures and `bits` — is a
-fact of the reference semantics, at every fuel. -/
-theorem C01_G_refines_R_partial (m : Module) (hm : refModule m = true) (w : SView)
-    (href : refStruct m w.sd = true) (hw : viewWF w = true) (n : Nat) :
+fact of the reference semantics, at every fuel.  Hypothesis `reachOK m d w.sd` (Model/ViewFrag.lean,
+decidable, evaluated by the driver on every structure of every real IR: `ref=`): the view's
+structure *and every structure reachable from it through fields of structure type* are inside
+the fragment — nothing is asked of the rest of the module.  (The lemmas are proved for any family
+of structures closed under "type of a field", `Closed`; `closed_of_refModule` is the module-wide
+instance.) -/
+theorem C01_G_refines_R_partial (m : Module) (w : SView) (d : Nat) (hfr : reachOK m d w.sd = true)
+    (hw : viewWF w = true) (n : Nat) :
     (∀ p v, (G m n).read w p = some v → RFact m w (.val p v)) ∧
     (∀ p b, (G m n).has w p = some b → RFact m w (.pres p b)) :=
-  G_sound m hm n w href hw
+  G_sound m (closed_reach m) n w ⟨d, hfr⟩ hw
 
 /-- **R is reported by G** (completeness): every fact of the reference semantics about a view of
-the fragment (whose validators mention only `this` and parameters) is reported by the generated
-view once the fuel statically covers the path (`need`, what `fuelOK` checks on every real IR).
-`moduleWF` (decidable, checked by the driver on every real IR): see `C01_moduleWF_*`. -/
-theorem C01_R_reported_by_G_partial (m : Module) (hm : refModule m = true) (hwfm : moduleWF m = true)
-    (hlocm : reqLocalModule m = true) (w : SView) (href : refStruct m w.sd = true)
-    (hloc : reqLocal w.sd = true) (hw : viewWF w = true) (n : Nat) :
+the fragment is reported by the generated view once the fuel statically covers the path (`need`,
+what `fuelOK` checks on every real IR).  `moduleWF` (decidable, checked by the driver on every
+real IR): see `C01_moduleWF_iff`. -/
+theorem C01_R_reported_by_G_partial (m : Module) (hwfm : moduleWF m = true) (w : SView) (d : Nat)
+    (hfr : reachOK m d w.sd = true) (hw : viewWF w = true) (n : Nat) :
     (∀ p v, RFact m w (.val p v) → need m n w.sd p = true → (G m n).read w p = some v) ∧
     (∀ p b, RFact m w (.pres p b) → need m n w.sd p = true → (G m n).has w p = some b) :=
-  ⟨fun p v h => G_complete m hm hwfm hlocm n w (.val p v) h href hloc hw,
-   fun p b h => G_complete m hm hwfm hlocm n w (.pres p b) h href hloc hw⟩
+  ⟨fun p v h => G_complete m (closed_reach m) hwfm n w (.val p v) h ⟨d, hfr⟩ hw,
+   fun p b h => G_complete m (closed_reach m) hwfm n w (.pres p b) h ⟨d, hfr⟩ hw⟩
 
 /-- Together: with enough fuel the generated view and the reference agree exactly, value by
 value and presence by presence, at every path; in particular R is *functional* on the fragment (a
 field has at most one value, a presence at most one truth value) because `G` is a function. -/
-theorem C01_G_equals_R_partial (m : Module) (hm : refModule m = true) (hwfm : moduleWF m = true)
-    (hlocm : reqLocalModule m = true) (w : SView) (href : refStruct m w.sd = true)
-    (hloc : reqLocal w.sd = true) (hw : viewWF w = true) (n : Nat) (p : List String)
+theorem C01_G_equals_R_partial (m : Module) (hwfm : moduleWF m = true) (w : SView) (d : Nat)
+    (hfr : reachOK m d w.sd = true) (hw : viewWF w = true) (n : Nat) (p : List String)
     (hn : need m n w.sd p = true) :
     (∀ v, (G m n).read w p = some v ↔ RFact m w (.val p v)) ∧
     (∀ b, (G m n).has w p = some b ↔ RFact m w (.pres p b)) :=
-  ⟨fun v => ⟨(G_sound m hm n w href hw).1 p v,
-             fun h => G_complete m hm hwfm hlocm n w (.val p v) h href hloc hw hn⟩,
-   fun b => ⟨(G_sound m hm n w href hw).2 p b,
-             fun h => G_complete m hm hwfm hlocm n w (.pres p b) h href hloc hw hn⟩⟩
+  ⟨fun v => ⟨(G_sound m (closed_reach m) n w ⟨d, hfr⟩ hw).1 p v,
+             fun h => G_complete m (closed_reach m) hwfm n w (.val p v) h ⟨d, hfr⟩ hw hn⟩,
+   fun b => ⟨(G_sound m (closed_reach m) n w ⟨d, hfr⟩ hw).2 p b,
+             fun h => G_complete m (closed_reach m) hwfm n w (.pres p b) h ⟨d, hfr⟩ hw hn⟩⟩
 
 /-- "The size is the largest end of any present field", on the reference: if R gives the
 synthesised size field (`$size_in_bytes = synthSize fields`, cf. `sizeIsSynth`) of any view — a
@@ -496,8 +499,8 @@ the generated view reads (`x()[i].Ok()`, `i < ElementCount()`; also in a truncat
 and when the accessor's storage was not clamped (the array's whole extent is inside the window)
 `ElementCount()` is R's `count` fact `size / elementsize`.  (`arrElem` / `arrCount`,
 Model/ViewObs.lean, are the expressions `obsType` prints per element and as `n<count>`.) -/
-theorem C01_array_refines_R_partial (m : Module) (hm : refModule m = true) (w : SView)
-    (href : refStruct m w.sd = true) (hw : viewWF w = true) (n : Nat) (x : String) (f : Field)
+theorem C01_array_refines_R_partial (m : Module) (w : SView) (d : Nat)
+    (hfr : reachOK m d w.sd = true) (hw : viewWF w = true) (n : Nat) (x : String) (f : Field)
     (hf : w.sd.field x = some f) :
     (∀ i v, arrElem (G m n) w f i = some v → RFact m w (.elem x i v)) ∧
     (∀ start size k bits req es bo c st z,
@@ -505,19 +508,19 @@ theorem C01_array_refines_R_partial (m : Module) (hm : refModule m = true) (w : 
       arrCount (G m n) w f = some c → physStorage (G m n) w f start size = some st →
       evalInt (envOf (G m n) w none) size = some z → st.ok = true ∧ st.size = z.toNat →
       RFact m w (.count x c)) :=
-  ⟨fun _ _ h => arrElem_sound href hw (G_sound m hm n w href hw) hf h,
-   fun _ _ _ _ _ _ _ _ _ _ hk h hst hz hfull =>
-     arrCount_sound href hw (G_sound m hm n w href hw) hf hk h hst hz hfull⟩
+  have href := (closed_reach m).ref _ ⟨d, hfr⟩
+  have hfacts := G_sound m (closed_reach m) n w ⟨d, hfr⟩ hw
+  ⟨fun _ _ h => arrElem_sound href hw hfacts hf h,
+   fun _ _ _ _ _ _ _ _ _ _ hk h hst hz hfull => arrCount_sound href hw hfacts hf hk h hst hz hfull⟩
 
 /-- … and completeness: R's `count` and `elem` facts are what the generated view reports once
 the fuel covers the field. -/
-theorem C01_R_array_reported_by_G_partial (m : Module) (hm : refModule m = true)
-    (hwfm : moduleWF m = true) (hlocm : reqLocalModule m = true) (w : SView)
-    (href : refStruct m w.sd = true) (hloc : reqLocal w.sd = true) (hw : viewWF w = true) (n : Nat)
+theorem C01_R_array_reported_by_G_partial (m : Module) (hwfm : moduleWF m = true) (w : SView) (d : Nat)
+    (hfr : reachOK m d w.sd = true) (hw : viewWF w = true) (n : Nat)
     (x : String) (f : Field) (hf : w.sd.field x = some f) (hn : need m (n + 1) w.sd [x] = true) :
     (∀ c, RFact m w (.count x c) → arrCount (G m n) w f = some c) ∧
     (∀ i v, RFact m w (.elem x i v) → arrElem (G m n) w f i = some v) :=
-  array_complete m hm hwfm hlocm n w href hloc hw hf hn
+  array_complete m (closed_reach m) hwfm n w ⟨d, hfr⟩ hw hf hn
 
 /-- `C01_constants` (partial): `$max_size_in_*` / `$min_size_in_*` (and every other virtual field
 whose value the compiler folded to a literal, without `[requires]`) read the same constant on
@@ -616,7 +619,8 @@ paths, and on `02 ff 07 a5` (n = 2; `in` = `07 a5`: k = 7, fl = 0xa5: a = 1, b =
 model computes `in.s = 9 = v`, `in.fl.c = -6 = in.cc`; with `n = 0` the inner structure is absent
 but its constant `one` still reads 1 (null view). -/
 example :
-    refModule exNest = true ∧ moduleWF exNest = true ∧ reqLocalModule exNest = true ∧
+    reachOK exNest 4 exOuter = true ∧ reachOK exNest 4 exFlat = true ∧ moduleWF exNest = true ∧
+    structInFragment exNest exOuter = true ∧
     viewWF (rootView exOuter [] [2, 255, 7, 165]) = true ∧
     need exNest 6 exOuter ["in", "fl", "c"] = true ∧ need exNest 6 exOuter ["v"] = true ∧
     (G exNest 6).read (rootView exOuter [] [2, 255, 7, 165]) ["in", "fl", "c"] = some (.int (-6)) ∧
@@ -646,20 +650,19 @@ example : RFact exNest (rootView exOuter [] [2, 255, 7, 165]) (.val ["in", "fl",
     RFact exNest (rootView exFlat [.int 7] [1, 0, 254]) (.val ["v"] (.int 5)) ∧
     RFact exNest (rootView exFlat [.int 7] [0]) (.pres ["y"] false) ∧
     ∃ ρ : Env, ViewSpec.size (extents ρ exFlatPhys) = some 3 := by
-  refine ⟨(C01_G_refines_R_partial exNest (by decide) _ (by decide) (by decide) 6).1 _ _ (by decide),
-    (C01_G_refines_R_partial exNest (by decide) _ (by decide) (by decide) 6).1 _ _ (by decide),
-    (C01_G_refines_R_partial exNest (by decide) _ (by decide) (by decide) 4).1 _ _ (by decide),
-    (C01_G_refines_R_partial exNest (by decide) _ (by decide) (by decide) 4).2 _ _ (by decide), ?_⟩
+  refine ⟨(C01_G_refines_R_partial exNest _ 4 (by decide) (by decide) 6).1 _ _ (by decide),
+    (C01_G_refines_R_partial exNest _ 4 (by decide) (by decide) 6).1 _ _ (by decide),
+    (C01_G_refines_R_partial exNest _ 4 (by decide) (by decide) 4).1 _ _ (by decide),
+    (C01_G_refines_R_partial exNest _ 4 (by decide) (by decide) 4).2 _ _ (by decide), ?_⟩
   obtain ⟨ρ, _, _, h⟩ := C01_R_size_is_max_end_partial exNest (rootView exFlat [.int 7] [1, 0, 254])
     exFlatPhys (by decide) "$size" exFlatSize (by rfl) rfl 3
-    ((C01_G_refines_R_partial exNest (by decide) _ (by decide) (by decide) 4).1 _ _ (by decide))
+    ((C01_G_refines_R_partial exNest _ 4 (by decide) (by decide) 4).1 _ _ (by decide))
   exact ⟨ρ, h⟩
 
 /-- and conversely (completeness): an R-fact derived by hand — `n` is present, by the `pres` rule
 with the empty assignment — is reported by the model. -/
 example : (G exNest 6).has (rootView exOuter [] [2, 255, 7, 165]) ["n"] = some true :=
-  (C01_R_reported_by_G_partial exNest (by decide) (by decide) (by decide) _ (by decide) (by decide)
-    (by decide) 6).2 _ _
+  (C01_R_reported_by_G_partial exNest (by decide) _ 4 (by decide) (by decide) 6).2 _ _
     (RFact.pres { read := fun _ => none, has := fun _ => none, param := fun _ => none, lv := none }
       (f := exOuterN) (by rfl) (by intro p v h; cases h) (by intro p c h; cases h)
       (by intro n v h; cases h) rfl (by decide)) (by decide)
@@ -683,7 +686,7 @@ example :
   refine ⟨by rfl, by decide, by decide, by decide, by decide, by decide, by decide⟩
 
 example : RFact exNest (rootView exOuter [] [2, 255, 7, 165, 11]) (.elem "arr" 0 (.int 11)) :=
-  (C01_array_refines_R_partial exNest (by decide) _ (by decide) (by decide) 5 "arr" exOuterArr (by rfl)).1
+  (C01_array_refines_R_partial exNest _ 4 (by decide) (by decide) 5 "arr" exOuterArr (by rfl)).1
     _ _ (by decide)
 
 end Emboss.View
